@@ -4,10 +4,11 @@ import SymmModel.Driver.HamH
 import SymmModel.Driver.TruncH
 import SymmModel.Driver.FermiOpsH
 import SymmModel.Driver.ReshapeH
+import SymmModel.Driver.CacheH
 open Lean SymmModel.Driver
 
 /-- plug-in handlers of the self-contained property models are tried in order -/
-def handlers : List (String → Json → Option (D Json)) := [handleCore, handleSym, handleHam, handleTrunc, handleFermiOps, handleReshape]
+def handlers : List (String → Json → Option (D Json)) := [handleCore, handleSym, handleHam, handleTrunc, handleFermiOps, handleReshape, handleCache]
 
 def handleLine (line : String) : Json :=
   match Json.parse line with
